@@ -40,6 +40,22 @@ def _mk(dim, box, ncon=0):
     return prob, DummyAlgorithm(prob)
 
 
+class RecordingStore:
+    """Stand-in for a persistent store (the non-default `problem.data_store = SqliteDataStore(...)`): remembers what was
+    handed to sync_individual, one row per id, last write wins -- the semantics C10 establishes for the real store."""
+    def __init__(self):
+        self.rows = {}
+
+    def sync_individual(self, individual):
+        self.rows[individual.id] = (list(individual.vector), list(individual.costs), individual.state)
+
+    def sync_all(self):
+        pass
+
+    def destroy(self):
+        pass
+
+
 def single(args):
     dim = args['dim']
     symbolic_box = args.get('symbolic_box', False)
@@ -68,6 +84,9 @@ def single(args):
                 prob.parameters[1]['bounds'] = [0.2, 0.4]
         else:
             prob.parameters[0].pop('precision', None)
+        store = RecordingStore() if args.get('store') else None
+        if store is not None:
+            prob.data_store = store
         ind = Individual([ctx.real('x%d' % i) for i in range(dim)])
         for x, p in zip(ind.vector, prob.parameters):
             ctx.assume(And(x >= p['bounds'][0], x <= p['bounds'][1]))
@@ -119,6 +138,19 @@ def single(args):
             ctx.check('five-transient-failures-needed', len(calls) != 5 or any(f == 'ok' or f == 'other' for f in pattern))
             ctx.check('runtime-error-after-five', not isinstance(exc, RuntimeError))
             ctx.check('not-evaluated-after-giving-up', ind.state == Individual.State.EVALUATED)
+        if store is not None:
+            # "never recorded as results": with a store attached, the persisted rows are the results a later view reads --
+            # only the design under evaluation may have a row, and after a success that row holds its final data
+            ctx.check('store-holds-no-row-of-a-failed-design', any(i != ind.id for i in store.rows))
+            for fi in prob.failed:
+                ctx.check('failed-design-has-no-row', fi.id in store.rows and fi.id != ind.id)
+            if last == 'ok':
+                row = store.rows.get(ind.id)
+                ctx.check('evaluated-design-has-a-row', row is None)
+                if row is not None:
+                    ctx.check('row-holds-the-final-vector', Not(ec.same_vec(row[0], ind.vector)))
+                    ctx.check('row-holds-the-final-costs', len(row[1]) != 1 or row[1][0] != calls[-1][1][0])
+                    ctx.check('row-state-evaluated', row[2] != Individual.State.EVALUATED)
         # reachability witnesses for the patterns the property names
         if len(calls) == 5 and last == 'ok':
             ctx.reach('exactly-four-failures-then-success')
@@ -234,6 +266,7 @@ def configs(tier):
          'split': 32, 'engine': {'validate': 60}},
         {'name': 'single-dim1-constraints', 'task': 'single', 'args': {'dim': 1, 'ncon': 1}, 'weight': 20, 'split': 32,
          'engine': {'validate': 60}},
+        {'name': 'single-dim1-store-attached', 'task': 'single', 'args': {'dim': 1, 'store': True}, 'weight': 10, 'engine': {'validate': 100}},
         {'name': 'batch-b2-f3', 'task': 'batch', 'args': {'b': 2, 'max_faults': 3}, 'weight': 15, 'split': 32,
          'engine': {'validate': 60}},
     ]
